@@ -213,6 +213,10 @@ var fsRewrites = []struct{ re, to string }{
 	{`\bioutil\.ReadFile\(`, "verifReadFile("},
 	{`\bioutil\.TempFile\(`, "verifTempFile("},
 	{`\bioutil\.ReadDir\(`, "verifReadDir("},
+	{`\bioutil\.WriteFile\(`, "verifWriteFile("},
+	{`\bos\.WriteFile\(`, "verifWriteFile("},
+	{`\bos\.ReadFile\(`, "verifReadFile("},
+	{`\bos\.Create\(`, "verifCreate("},
 	{`\*os\.File\b`, "*verifFile"},
 }
 
